@@ -269,6 +269,13 @@ def run_scenario(sc, seed, index, wl, keep=False):
         procs = prepare_dir(sc, d, rng_for("fs-prior", seed, index, wl.n), inputs, extra, ref_out)
         before = snapshot(d)
         plan = Plan(sc["pseed"], sc["strategy"], faults=[sc["fault"]] if sc["fault"] else [])
+        if sc.get("decisions") is not None:
+            # replay of a recorded (possibly minimised) decision list
+            dpath = os.path.join(ctl, f"decisions_in_{wl.n}.txt")
+            with open(dpath, "w") as fh:
+                fh.write("\n".join(str(x) for x in sc["decisions"]) + "\n")
+            plan = Plan(sc["pseed"], "replay", faults=[sc["fault"]] if sc["fault"] else [],
+                        decisions_in=dpath)
         preexec = None
         if sc.get("fsize"):
             limit = int(sc["fsize"])
@@ -299,6 +306,11 @@ def run_scenario(sc, seed, index, wl, keep=False):
         procs = []
         after = snapshot(d)
         res["status"] = r.status
+        try:
+            with open(r.decisions_path) as fh:
+                res["decisions"] = [int(x) for x in fh.read().split()]
+        except (FileNotFoundError, ValueError):
+            res["decisions"] = []
         res["steps"] = r.steps
         res["switches"] = int(r.summary.get("switches", 0))
         res["trace_hash"] = r.trace_hash
@@ -544,6 +556,8 @@ def run_job(job):
             sc = queue.pop(0)
             expand = sc.pop("_expand", False)
             r = run_scenario(sc, seed, index, wl)
+            if job.get("want_decisions"):
+                res["decisions"] = r.get("decisions", [])
             if expand:
                 if r.get("status") != 0 or r["violations"]:
                     raise HarnessError(f"fs sysfault profile run failed: {sc} -> {r.get('status')} "
